@@ -17,6 +17,14 @@ func New(r bufio.Reader) LexerReader {
 	content, _ := io.ReadAll(&r)
 	runes := []rune(string(content))
 
+	// Read reports end of input as rune 0, so a NUL byte inside the file would end
+	// lexing early and hide the rest of the source. Treat it as blank space.
+	for i, r := range runes {
+		if r == 0 {
+			runes[i] = ' '
+		}
+	}
+
 	return LexerReader{
 		runes:    runes,
 		pos:      0,
